@@ -256,6 +256,7 @@ type world struct {
 	maxDial    time.Duration
 	slowDial   bool   // a dial latency fault was injected at some point (counts as a stall)
 	hookOrig   string // original address of the datagram the hook is being called for
+	t0         time.Duration // when the manager (and with it the sweeper's 1 s grid) started
 
 	// a receiver behind a lossy path: one real Defragger per session is fed the fragments the
 	// server emits, minus seeded drops. Whatever it reassembles must be a reply that was injected.
@@ -606,6 +607,11 @@ func genC07(r *hysim.Rand, tier string) *hysim.Script {
 	// (bounded liveness once faults stop); the other half end with sessions still open when
 	// the connection is lost
 	sc.Cfg["final_idle"] = int64(r.Intn(2))
+	// the manager does not start on a whole second of the wall clock, and not all traffic falls
+	// on whole milliseconds
+	sc.Cfg["start_us"] = r.Pick64(0, 0, 1, 250000, 500000, 999999, int64(r.Range(1, 999999)))
+	// the connection may be lost while scheduling faults are still active, shortly before a sweep
+	sc.Cfg["kill_early_us"] = r.Pick64(0, 0, 0, 1, 1000, 100000, 400000)
 	if r.Chance(1, 8) {
 		// stratum: datagrams that open a session at the very instant of the sweep that expires
 		// the last ones, under reschedules only (so that the timing oracles stay armed)
@@ -764,6 +770,10 @@ func execC07(x *hysim.Run) {
 	}
 	c08 := sc.Get("c08", 0) == 1
 	waitEach := sc.Get("wait_each", 0) == 1
+	if d := sc.Get("start_us", 0); d > 0 {
+		time.Sleep(time.Duration(d) * time.Microsecond)
+	}
+	w.t0 = x.Now()
 	m := newUDPSessionManager(w, w, w.timeout)
 	w.mgr = m
 	runDone := make(chan struct{})
@@ -908,7 +918,7 @@ func execC07(x *hysim.Run) {
 			w.sent[msgKey{sid, w.seq}] = &sentMsg{sid: sid, seq: w.seq, addr: addrA, size: len(pa), complete: true, pushedAt: x.Now()}
 			x.Ev("push msg s%d q%d -> %s (sweeprace)", sid, w.seq, addrA)
 			w.push(&protocol.UDPMessage{SessionID: sid, FragCount: 1, Addr: addrA, Data: pa})
-			tick := ((x.Now()+w.timeout)/time.Second + 1) * time.Second
+			tick := ((x.Now()-w.t0+w.timeout)/time.Second+1)*time.Second + w.t0
 			at := tick + time.Duration(op.Arg(2))*time.Millisecond
 			w.seq++
 			seqB := w.seq
@@ -982,17 +992,35 @@ func execC07(x *hysim.Run) {
 			break
 		}
 	}
+	killEarly := sc.Get("kill_early_us", 0)
+	if killEarly > 0 && sc.Get("final_idle", 0) == 0 && !x.Violated() {
+		// ---- the connection is lost while scheduling faults are still on, a little before the
+		// next sweep: the final cleanup and the sweeper may overlap
+		toTick := time.Second - (x.Now()-w.t0)%time.Second
+		if d := toTick - time.Duration(killEarly)*time.Microsecond; d > 0 {
+			time.Sleep(d)
+		}
+		w.killed = true
+		close(w.kill)
+		x.Fault("conn.loss-under-faults")
+		select {
+		case <-runDone:
+		case <-time.After(w.maxDial + 600*time.Second):
+			x.Violate("manager-stuck", "session manager did not return within %v after connection loss", w.maxDial+600*time.Second)
+			return
+		}
+	}
 	// ---- drain: no more scheduling faults; let everything in flight settle
 	x.Drain(10 * time.Millisecond)
 	synctest.Wait()
-	for i := 0; i < 20000 && len(w.in) > 0; i++ {
+	for i := 0; i < 20000 && len(w.in) > 0 && !w.killed; i++ {
 		time.Sleep(w.maxDial + 10*time.Millisecond)
 		synctest.Wait()
 	}
-	if len(w.in) != 0 {
+	if len(w.in) != 0 && !w.killed {
 		hysim.HarnessBug("input not consumed after drain: %d", len(w.in))
 	}
-	clean := x.StallCount() == 0 && !faultsUsed && w.dialFail == 0
+	clean := x.StallCount() == 0 && !faultsUsed && w.dialFail == 0 && !w.killed
 	w.checkDelivery(clean, c08)
 	if len(w.socks) >= 2 {
 		x.NonTrivial()
@@ -1027,8 +1055,10 @@ func execC07(x *hysim.Run) {
 	if nOpenBefore > 0 {
 		x.Probe("sessions-open-at-connection-loss")
 	}
+	if !w.killed {
+		close(w.kill)
+	}
 	w.killed = true
-	close(w.kill)
 	x.Fault("conn.loss")
 	select {
 	case <-runDone:
